@@ -213,7 +213,7 @@ func genC18(e *emitter, tier string) {
 	// (5) unknown operator types: the model loads, Run must fail with the unsupported-operator error
 	x := NamedT{"x", smallT("f32", []int{2, 2}, 1)}
 	vin := []VInfoJ{{Name: "x", Dt: "f32", Dims: []any{2, 2}}}
-	for _, op := range []string{"Gelu", "", "relu", "Identity", "MaxPool", "Dropout", "Conv2D", "LayerNormalization"} {
+	for _, op := range []string{"Gelu", "", "relu", "Identity", "MaxPool", "Dropout", "Conv2D", "LayerNormalization", " Relu", "Relu ", "Relu\n", "\tAbs", "RELU", "Relu6", "Rel", "ai.onnx.Relu", "Relu:13"} {
 		e.emit(graphCase("unknown-op", &GraphJ{Inputs: vin, Nodes: []NodeJ{{Op: "Relu", Ins: []string{"x"}, Outs: []string{"a"}}, {Op: op, Ins: []string{"a"}, Outs: []string{"y"}}, {Op: "Relu", Ins: []string{"y"}, Outs: []string{"z"}}}, Outputs: []string{"z"}}, []NamedT{x}))
 		e.emit(graphCase("unknown-op", &GraphJ{Inputs: vin, Nodes: []NodeJ{{Op: op, Ins: []string{"x"}, Outs: []string{"unused"}}, {Op: "Relu", Ins: []string{"x"}, Outs: []string{"z"}}}, Outputs: []string{"z"}}, []NamedT{x}))
 	}
